@@ -752,6 +752,7 @@ class Exec:
             cal = self.callees.get('UTPM.' + f[1])
             if not f[1].startswith('_') and cal is not None and hasattr(cal.c, 'fvalue'):      # public functional classmethod (UTPM.neg(x))
                 names_, _ = cal.sig(); args_ = {}
+                if getattr(cal.c, 'obj', None) == 'self' or (not names_ and n.args): names_ = ['self'] + list(names_)      # UTPM.exp(x): an instance method called through the class
                 for nm_, a_ in zip(names_, n.args): args_[nm_] = self.ev(a_)
                 for k_, v_ in kw.items():
                     if v_ is not None and not (isinstance(v_, ast.Constant) and v_.value is None): args_[k_] = self.ev(v_)
